@@ -136,6 +136,10 @@ def run(ctx, rep):
     loops = _ladder_loops(vw, vw.params[4])
     if len(loops) != 1:
         raise AnalysisError("_process_price_matched_vwap: loop over the ladder not found")
+    if not any(isinstance(x.value, ast.Call) and call_name(x.value) == "wap" and x in list(ast.walk(loops[0]))
+               for x in walk_nodes(vw.node.body, ast.Assign)):
+        raise AnalysisError("_process_price_matched_vwap: the volume-weighted average is not computed by utils.wap() over "
+                            "the candidate fills; a re-implemented average is arithmetic this checker does not model")
     headv = [n for n in cfgv.live_nodes() if n.kind == "for" and n.ast is loops[0]][0]
     startv = [m for l, m in headv.succ if l == "iter"][0]
     upsv = [n for n, c in node_calls(cfgv, "_update_matched")]
